@@ -238,12 +238,12 @@ class ExpImpl:
             if k == "agents":
                 return "ok agents=" + ",".join(map(str, sorted(self.ids[a] for a in sp.agents)))
             if k == "radius":
-                ags, ds = sp.get_agents_in_radius(self.pt(w[1:1 + nd]), int(w[1 + nd]) / U)
+                ags, ds = sp.get_agents_in_radius(self.pt(w[1:-1]), int(w[-1]) / U)
                 return "ok res=" + self.fmt_pairs(self.pairs(ags, ds))
             if k == "knn":
-                p = self.pt(w[1:1 + nd])
-                ags, ds = sp.get_k_nearest_agents(p, int(w[1 + nd]))
-                all_d2 = [self.d2(d) for d in sp.calculate_distances(self.pt(w[1:1 + nd]))[0]]
+                p = self.pt(w[1:-1])
+                ags, ds = sp.get_k_nearest_agents(p, int(w[-1]))
+                all_d2 = [self.d2(d) for d in sp.calculate_distances(self.pt(w[1:-1]))[0]]
                 return "ok res=" + fmt_knn(knn_canon(all_d2, self.pairs(ags, ds))[1])
             if k == "nir":
                 ags, ds = self.agents[int(w[1])].get_neighbors_in_radius(int(w[2]) / U)
@@ -430,6 +430,18 @@ def oracle(sc, obs):
                     if hx * hx + hy * hy != int(prev[1][6:]):
                         bad.append(f"heading-length: {line} -> {o}, squared length {hx*hx+hy*hy} but distance squared {prev[1][6:]}")
         else:
+            ncoord = {"set": len(w) - 2, "iadd": len(w) - 2, "raw": len(w) - 2, "radius": len(w) - 2, "knn": len(w) - 2,
+                      "inb": len(w) - 1, "correct": len(w) - 1,
+                      "dists": (w.index(":") if ":" in w else len(w)) - 1, "diffs": (w.index(":") if ":" in w else len(w)) - 1}.get(k)
+            if ncoord is not None and ncoord != nd:
+                # a vector that is not a point of the space (numpy broadcasts it or raises): the property does not speak about the
+                # call; if it went through, the position it left behind is not known to the property until the next assignment
+                if o == "ok" and k in ("set", "iadd", "raw"):
+                    hit = sp.order[int(w[1])] if k == "raw" and int(w[1]) < len(sp.order) else int(w[1]) if k != "raw" else None
+                    if hit in sp.pos:
+                        sp.pos[hit] = None
+                prev = (w, o)
+                continue
             if k == "new":
                 a = int(w[1])
                 if o != "ok":
@@ -849,10 +861,54 @@ class Gen:
                 self.emit(f"diffs {self.fmt(pt)}{sub}")
         else:
             self.emit(f"{R.choice(['inb', 'correct'])} {self.fmt(self.point(0.3))}")
+        if self.nd >= 2 and sp.order and R.random() < 0.02:
+            self.wrong_length()
         if self.held and sp.order and R.random() < 0.15:
             self.held_use()  # a kept reference is used again later: after re-slicing, compaction, re-allocation
         if self.rr and R.random() < 0.5 and sp.order:
             self.emit(R.choice(["agents", f"get {self.member()}", f"radius {self.fmt(self.inside_point())} 200"]))
+
+    def wrong_length(self):
+        """a vector with the wrong number of coordinates: one element (numpy broadcasts it) or nd-1 / nd+1 (ValueError)"""
+        R, sp = self.R, self.sp
+        n = len(sp.order)
+        klen = R.choice([1, 1, 1, self.nd - 1, self.nd + 1])
+        full = list(self.point(0.15))
+        v = [full[0]] if klen == 1 else full[:klen] if klen < self.nd else full + [full[0]]
+        rep = tuple(v * self.nd) if klen == 1 else None  # what a one-element vector stands for
+        op = R.choice(["set", "set", "iadd", "raw", "radius", "knn", "dists", "diffs", "inb", "correct"])
+        a = self.member()
+        if op == "set":
+            self.emit(f"set {a} {self.fmt(v)}")
+            if rep is not None and sp.assign(rep) is not None:
+                sp.pos[a] = sp.assign(rep)
+            self.emit(f"get {a}")
+        elif op == "iadd":
+            if sp.pos[a] is None:
+                return
+            d = [R.choice([0, 1, -1, 16, -16, 64])] * klen if klen == 1 else v
+            self.emit(f"iadd {a} {self.fmt(d)}")
+            if klen == 1:
+                t = sp.assign(tuple(x + d[0] for x in sp.pos[a]))
+                if t is not None:
+                    sp.pos[a] = t
+            self.emit(f"get {a}")
+        elif op == "raw":
+            i = R.randrange(n) if R.random() < 0.9 else n
+            self.emit(f"raw {i} {self.fmt(v)}")
+            if rep is not None and i < n:
+                sp.pos[sp.order[i]] = rep
+            if i < n:
+                self.emit(f"get {sp.order[i]}")
+        elif op == "radius":
+            self.emit(f"radius {self.fmt(v)} {R.choice([64, 200, 1000])}")
+        elif op == "knn":
+            self.emit(f"knn {self.fmt(v)} {R.choice([1, n, 0])}")
+        elif op in ("dists", "diffs"):
+            sub = "" if R.random() < 0.6 else " : " + " ".join(str(R.choice(sp.order + self.removed[:1])) for _ in range(R.randrange(0, 3)))
+            self.emit(f"{op} {self.fmt(v)}{sub}")
+        else:
+            self.emit(f"{op} {self.fmt(v)}")
 
     def held_use(self):
         """read or write through a reference to agent_positions taken earlier"""
